@@ -13,6 +13,12 @@ NOT decided. Decided:
      of the declaration (or its export wrapper) only.
   d. imports / named exports keep exactly the specifiers in the public ranges
      and are dropped when none remains.
+  e. trace-request merging never forgets `default`; the optional-parameter
+     normalisation's own state machine: which patterns are optional, the start
+     index restarts after every required parameter, a parameter is optional
+     from that index on.
+  f. every `retain(|x| public_ranges.contains(..))` of the transformer is
+     passed on every non-error path of the code that owns it.
 """
 from .lib import *
 from .lib import _tail_values
@@ -21,7 +27,7 @@ EXPLANATION = (
     "Argument provenance of the entrypoint traces (T4), producer/consumer agreement of the range keys between range finder and "
     "transformer (T12), arm tables of transform_decl / transform_item for retention (T8)."
 )
-NOT_DECIDED = "equality of export sets, signature preservation, the optional-parameter normalisation (relational facts about two texts)"
+NOT_DECIDED = "equality of export sets, signature preservation (relational facts about two texts); of the optional-parameter normalisation only the start-index computation is decided, not the emitted text"
 ASSUMPTIONS = []
 
 T = "fast_check::transform::FastCheckTransformer::"
@@ -119,3 +125,72 @@ def run(F, R, tier):
         R.ob("C11-e", "defaulted and rest parameters continue a trailing optional run", table.get("Assign") is True and table.get("Rest") is True and not ca,
              "is_param_pat_optional maps Assign -> %s, Rest -> %s: `f(a = 1, ...rest)` would be emitted with `a` as a required parameter, changing the public signature beyond the documented normalisation" % (table.get("Assign"), table.get("Rest")), bs[0]["file"])
         R.ob("C11-e", "identifier / array / object patterns are optional exactly when marked so", all(table.get(k) == "field:optional" for k in ("Ident", "Array", "Object")), "table: %s" % table, bs[0]["file"])
+    # the start of the trailing optional run: reset by every required parameter
+    bb = [b for b in F.bodies if b["path"].endswith("ParamsOptionalStartIndex::build")]
+    if R.ob("C11-e", "optional-run builder found", len(bb) == 1, "ParamsOptionalStartIndex::build moved", "src/fast_check/transform.rs"):
+        b = bb[0]
+        vals = return_values(F, b)
+        L = None
+        if len(vals) == 1 and peel(vals[0]).get("k") == "Call" and len(peel(vals[0])["args"]) == 1:
+            a0 = peel_value(peel(vals[0])["args"][0])
+            if a0.get("res") == "local":
+                L = a0["lid"]
+        if R.ob("C11-e", "the builder returns its running index unmodified", L is not None, "build returns `%s`, not the running start index" % (expr_text(vals[0])[:50] if vals else "?"), b["file"]):
+            defs = local_defs(b, L)
+            init_none = any(d[0] == "let" and d[1] is not None and ctor_of(peel(d[1])) == "std::option::Option::None" for d in defs)
+            fors = [n for n in b["_nodes"] if n["k"] == "For"]
+            cls_call = lambda x: x.get("k") == "Call" and (x.get("fn") or "").endswith("is_param_pat_optional")
+            ok_reset = ok_set = False
+            why = ""
+            if len(fors) == 1:
+                asg = [n for n in walk(fors[0]["body"]) if n["k"] == "Assign" and peel(n["l"]).get("lid") == L]
+                resets = [a for a in asg if ctor_of(peel(a["r"])) == "std::option::Option::None"]
+                sets = [a for a in asg if ctor_of(peel(a["r"])) == "std::option::Option::Some"]
+                idx_lids = {x["lid"] for x in pat_bindings(fors[0]["pat"])}
+                # every iteration over a required parameter passes a reset
+                iffs = [n for n in walk(fors[0]["body"]) if n["k"] == "If" and cls_call(peel(n["cond"])) or (n["k"] == "If" and peel(n["cond"]).get("k") == "Unary" and cls_call(peel(peel(n["cond"])["e"])))]
+                if len(iffs) == 1:
+                    neg = peel(iffs[0]["cond"]).get("k") == "Unary"
+                    req_branch = iffs[0]["then"] if neg else iffs[0].get("else")
+                    if req_branch is not None:
+                        bad, _ = must_pass(F, req_branch, lambda n: n in resets, exit_kinds=("fallthrough", "continue", "break"))
+                        ok_reset = bool(resets) and not bad
+                ok_set = len(sets) >= 1
+                for a in sets:
+                    g = guards_at(F, a, stop_at=fors[0])
+                    first = any(x.kind == "cond" and x.pol and x.node.get("fn") == "std::option::Option::is_none" and peel_value(x.node["recv"]).get("lid") == L for x in g)
+                    opt = any(x.kind == "cond" and x.pol and cls_call(x.node) for x in g)
+                    arg = peel_value(peel(a["r"])["args"][0])
+                    ok_set = ok_set and first and opt and arg.get("lid") in idx_lids
+                why = "resets on required parameters: %s; set to the index of the first optional of a run: %s" % (ok_reset, ok_set)
+            R.ob("C11-e", "the optional run restarts after every required parameter", init_none and ok_reset and ok_set,
+                 "ParamsOptionalStartIndex::build no longer yields the start of the *trailing* run of optional parameters (%s): in `f(a = 1, b, c = 2)` the parameters before a required one would be emitted as optional, which is not the documented normalisation" % why, b["file"])
+    io = [b for b in F.bodies if b["path"].endswith("ParamsOptionalStartIndex::is_optional_at_index")]
+    if R.ob("C11-e", "optional-run test found", len(io) == 1, "is_optional_at_index moved", "src/fast_check/transform.rs"):
+        cmpn = [n for n in io[0]["_nodes"] if n.get("k") == "Binary" and n["op"] in (">=", "<=", ">", "<", "==", "!=")]
+        ok = len(cmpn) == 1 and ((cmpn[0]["op"] == ">=" and peel_value(cmpn[0]["l"]).get("lid") == io[0]["body"]["params"][1].get("lid")) or (cmpn[0]["op"] == "<=" and peel_value(cmpn[0]["r"]).get("lid") == io[0]["body"]["params"][1].get("lid")))
+        fb = [n for n in io[0]["_nodes"] if n.get("k") == "MethodCall" and n["name"] == "unwrap_or" and peel(n["args"][0]).get("v") is False]
+        R.ob("C11-e", "a parameter is optional exactly from the start of the trailing run on", ok and len(fb) == 1, "is_optional_at_index compares `%s`" % (expr_text(cmpn[0]) if cmpn else "?"), io[0]["file"])
+
+    # ---------------- C11-f ------------------------------------------------
+    # filtering by public range is not skippable: a `retain(|x| public_ranges.contains(..))`
+    # is passed on every non-error path of the code that owns it
+    n_f = 0
+    for b in F.bodies:
+        if b.get("derived") or not b["path"].startswith(T):
+            continue
+        for n in b["_nodes"]:
+            if n.get("k") == "MethodCall" and n["name"] == "retain" and peel(n["args"][0]).get("k") == "Closure" and mentions_call(peel(n["args"][0])["body"]["value"], ["ModulePublicRanges::contains"]):
+                n_f += 1
+                scope = b["body"]["value"]
+                for a in k_ancestors(n):
+                    if a.get("k") == "Match":
+                        for arm in a["arms"]:
+                            if is_within(n, arm["body"]):
+                                scope = arm["body"]
+                        break
+                bad, _ = must_pass(F, scope, lambda x, n=n: x is n, exit_kinds=("fallthrough", "return"))
+                bad = [(kd, nd) for kd, nd in bad if not (kd == "return" and ctor_of(peel(nd.get("e", {}))) == "std::result::Result::Err")]
+                R.ob("C11-f", "%s of %s is filtered by public range on every path" % (field_of(n["recv"]) or expr_text(n["recv"]), b["path"].split("::")[-1]), not bad,
+                     "a path through %s returns without `%s.retain(|x| public_ranges.contains(..))`: entries that are neither exported nor referenced from the public API stay in the emitted module" % (b["path"].split("::")[-1], expr_text(n["recv"])), where(n))
+    R.floor("C11-f public-range filters", n_f, 3)
